@@ -729,6 +729,7 @@ def run_derivation(world, cname, contract, iter_bound=1, chg_one_slot=False, loo
         H._CURRENT["interp"] = interp
         interp.state["wf_view"] = (v0, cname)
         (kind, name, pos, kw), sym = contract.call(interp, g, cname)
+        interp.state["contract_sym"] = sym
         interp.assume(contract.pre(v0, sym, cname))
         for t_ in sym.values():
             for tt in (t_ if isinstance(t_, list) else [t_]):
@@ -911,6 +912,8 @@ def for_hook(interp, s, fr, iterable):
         cur = fr.env.get(name)
         if isinstance(cur, _FSet) and not cur.elems:
             fr.env[name] = H.SetRef(H.SET_TYPES[tname], h.s_new(H.SET_TYPES[tname]))
+        elif isinstance(cur, dict) and not cur and tname in H.DICT_TYPES:
+            fr.env[name] = H.DictRef(H.DICT_TYPES[tname], h.d_new(H.DICT_TYPES[tname]))
     ctx = LoopCtx(interp, fr, g, h.snapshot(), C)
     empty = z3.K(esort, z3.BoolVal(False))
     # focus_loop = n: only the n-th loop reached is checked (init + generic step), the others are summarised by their
